@@ -292,8 +292,13 @@ fn run_op(live: &mut Live, op: &Op) -> Obs {
             let Some(u) = live.get(*k) else {
                 return Obs::NotApplicable;
             };
-            let c = u.clone();
-            let _lent: &Unimock = u.make_ref(c);
+            // without a lock implementation Unimock is not Send + Sync and cannot be lent by make_ref
+            #[cfg(not(feature = "cfg-nostd-nolock"))]
+            {
+                let c = u.clone();
+                let _lent: &Unimock = u.make_ref(c);
+            }
+            let _ = u;
             Obs::Silent
         }
         Op::MakeRef(k) => {
